@@ -6,6 +6,8 @@
 cd "$(dirname "$0")/.."
 if [ -n "$(git -C /repo status --porcelain)" ]; then echo "selftest/seeded.sh: /repo has uncommitted changes, refusing"; exit 2; fi
 rc=0
+# evidence files are rewritten by every run: keep the clean-tree records
+keep=$(mktemp -d /tmp/evidence.XXXXXX); cp -a evidence/. $keep/
 for d in seeded/*/; do
   id=$(basename $d)
   [ -f $d/patch.diff ] || continue
@@ -17,5 +19,6 @@ for d in seeded/*/; do
   conf=$(echo "$out" | grep "^VIOLATION property=$id " | grep -vc "no-failing-input-found")
   if [ $code -eq 1 ] && [ $n -gt 0 ]; then echo "seed $id: detected ($n violation line(s), $conf confirmed on the real code)"; else echo "seed $id: MISSED (exit $code)"; rc=1; fi
 done
+cp -a $keep/. evidence/; rm -rf $keep
 if [ -n "$(git -C /repo status --porcelain)" ]; then echo "selftest/seeded.sh: /repo not clean after the run!"; rc=2; fi
 exit $rc
